@@ -127,7 +127,9 @@ func c17Keys(p c17Params) []any {
 		}
 		return []any{int32(math.MinInt32), int32(-1), int32(0), int32(1), int32(math.MaxInt32)}
 	case "float":
-		return []any{float32(-3.0e38), float32(-1.5), float32(0), float32(1e-40), float32(3.0e38)}
+		// -0.0 and 0.0 are one key (they compare equal as values): an entry stored under one spelling of zero
+		// must be found, deleted and range-scanned under the other
+		return []any{float32(-3.0e38), float32(math.Copysign(0, -1)), float32(0), float32(1e-40), float32(3.0e38)}
 	}
 	if p.Kind == "btree" {
 		b := strings.Repeat("k", 23)
